@@ -53,6 +53,27 @@ CLAIMS = {
                   "views with non-ascending index lists are only checked for vacancy re-indexing (geometry finding F10).",
         technique="Lean 4 theorems (set/index level) + exhaustive small-scope and random differential correspondence",
         ref="§3 C12"),
+    "C13": dict(
+        text="Theorems about Model/Layout.lean: Layout and ArchSpec equality are equivalence relations that hold iff all five "
+             "tables/sets (and both constant tables) agree, and imply equal hash keys; construction succeeds only when all zone "
+             "grids are pairwise distinct (C13_no_duplicate_grids); on a constructed layout get_zone_id of any zone's grid is "
+             "that zone's name and only zones have names (index coherent/sound); the bounding box contains every site and each "
+             "bound is attained (C13_bbox_tight, for grids with non-negative spacing and both axes). Tie: random layouts over a "
+             "grid/name pool (duplicates included) and every library builder output vs the model; laws checked on real objects.",
+        note=TB + "bbox tightness assumes every zone has both axes (x_init and y_init set) - true of every library layout.",
+        technique="Lean 4 theorems (loop invariant of the index construction, fold lemmas) + differential correspondence",
+        ref="§3 C13"),
+    "C14": dict(
+        text="Theorems: for all num_x, num_y >= 1 and spacings the single-zone builder's positions are exactly i*s / j*s; the "
+             "deprecated builder equals its replacement for all arguments; capability sets only name existing zones (all sizes, "
+             "single and two-column); Gemini (closed terms, decided by the kernel on the model): zone shapes, every block is a "
+             "7x5 sub-set of its parent zone, constants agree with the geometry. The builder models are compared zone by zone "
+             "with the real builders for all sizes <= 5 (thorough 8) x spacings, and the documented geometry (two-column "
+             "partition, pairs gate_spacing apart) is checked directly on the real outputs.",
+        note=TB + "The two-column partition for all sizes is checked by correspondence and direct oracle, not yet a theorem "
+                  "(needs the sub-grid position lemma).",
+        technique="Lean 4 theorems (induction on size; decide +kernel on closed terms) + exhaustive small-scope correspondence",
+        ref="§3 C14"),
     "C15": dict(
         text="Theorem C15_fresh_equiv: for every history of run_trace calls (successes and failures mixed, any initial "
              "instance state) each call returns what a fresh instance returns; proved over reset/copy flags regenerated "
